@@ -303,6 +303,11 @@ def r15_4_threshold_definition(ctx, rule: str = 'R15.4', rule_mirror: str = 'R08
         pool = None
         if len(loops) == 1 and isinstance(loops[0].iter, ast.Name) and loops[0].iter.id == ps2[0] and len(loops[0].body) == 1:
             st = loops[0].body[0]
+            # (`pool = pool + isi_lengths(..)` is the same accumulation as `pool += isi_lengths(..)`)
+            if isinstance(st, ast.Assign) and len(st.targets) == 1 and isinstance(st.targets[0], ast.Name) and isinstance(st.value, ast.BinOp) \
+                    and isinstance(st.value.op, ast.Add) and isinstance(st.value.left, ast.Name) and st.value.left.id == st.targets[0].id:
+                st = ast.copy_location(ast.AugAssign(target=ast.Name(id=st.targets[0].id, ctx=ast.Store()), op=ast.Add(),
+                                                     value=st.value.right), st)
             if isinstance(st, ast.AugAssign) and isinstance(st.op, ast.Add) and isinstance(st.value, ast.Call) and \
                     isinstance(st.value.func, ast.Name) and st.value.func.id == 'isi_lengths' and isinstance(st.target, ast.Name):
                 a = st.value.args
@@ -1578,8 +1583,23 @@ def r20_4_poisson(ctx, rule: str = 'R20.4') -> List[Ob]:
         defs = [n for n in ast.walk(f.node) if isinstance(n, ast.Assign) and len(n.targets) == 1 and isinstance(n.targets[0], ast.Name)
                 and n.targets[0].id == draws_name]
 
+        # an optional generator parameter (default None) that is replaced by np.random when it is not given
+        gens = set()
+        a_ = f.node.args
+        defaults_ = dict(zip([x.arg for x in a_.args][len(a_.args) - len(a_.defaults):], a_.defaults))
+        for pn, dv in defaults_.items():
+            if isinstance(dv, ast.Constant) and dv.value is None:
+                asg = [n for n in ast.walk(f.node) if isinstance(n, ast.Assign) and any(isinstance(t_, ast.Name) and t_.id == pn for t_ in n.targets)]
+                if asg and all((C.dotted(n.value) or '') in ('np.random', 'numpy.random') for n in asg):
+                    gens.add(pn)
+
         def is_draw(e) -> bool:
-            return isinstance(e, ast.Call) and (C.dotted(e.func) or '').endswith('random.exponential')
+            if not isinstance(e, ast.Call):
+                return False
+            if (C.dotted(e.func) or '').endswith('random.exponential'):
+                return True
+            return isinstance(e.func, ast.Attribute) and e.func.attr == 'exponential' and isinstance(e.func.value, ast.Name) \
+                and e.func.value.id in gens
 
         def okdef(v) -> bool:
             if is_draw(v):
